@@ -235,7 +235,8 @@ fn cq(x: &mut Exec) -> Res {
                 let (t, b) = (tops[arm].load(SeqCst), bots[arm].load(SeqCst));
                 if remove_arm == Some(arm) {
                     // a removed (cancelled) arm delivers a prefix of its events
-                    if got[arm] > evs2[arm] || b != got[arm] || t < b || t > b + 1 || seen_extra[arm] != (0..got[arm]).collect::<Vec<_>>() {
+                    // (its last send may short-circuit once the cancel bit is set: bottom runs without an event)
+                    if got[arm] > evs2[arm] || b < got[arm] || b > got[arm] + 1 || t < b || t > b + 1 || seen_extra[arm] != (0..got[arm]).collect::<Vec<_>>() {
                         *e = Some(format!("removed arm {}: poll delivered {} events {:?}, top halves {}, bottom halves {}", arm, got[arm], seen_extra[arm], t, b));
                     }
                     continue;
